@@ -32,6 +32,7 @@
 (*   outside      can = 1, tdiff = 0, dmod = 0                              *)
 (*   doneCannotFail  e0 = 0 /\ tb <= 8*n1 => err = 0                        *)
 (*   budget       tb <= 8*n1 and no patch was refused => err = 0            *)
+(*   patchRefused a patch of n bits after fewer than n coded bits sets error*)
 (* and, as exact normative arithmetic (R1: decoder arithmetic is normative),*)
 (*   m32val/m32tell  TLC's own decoding of b with RangeDec32 returns the    *)
 (*                same values, tell and tell_frac as the real decoder       *)
@@ -71,15 +72,16 @@ EvLegal(e) ==
     [] e.o \in {"icdf", "icdf16"} -> e.a[2] >= 1 /\ e.a[2] <= Len(Tr[1].t) /\ OpLegal(EvOp(e))
     [] OTHER -> OpLegal(EvOp(e))
 
-\* leading exact bits of the execution that begins at line h (scan forward to the first coding
-\* op that is not exact)
-RECURSIVE LeadScan(_, _)
-LeadScan(i, acc) ==
-  IF i > Len(Tr) \/ Tr[i].k # "op" THEN acc
+\* leading exact bits among the first n coding ops of the execution whose events start at line i
+RECURSIVE LeadScan(_, _, _)
+LeadScan(i, n, acc) ==
+  IF n = 0 \/ i > Len(Tr) \/ Tr[i].k # "op" THEN acc
   ELSE LET op == EvOp(Tr[i]) IN
-       IF ~IsCoding(op) THEN LeadScan(i + 1, acc)
+       IF ~IsCoding(op) THEN LeadScan(i + 1, n, acc)
        ELSE LET k == ExactBits(op) IN
-            IF k = 0 \/ acc + k > SYM_BITS THEN acc ELSE LeadScan(i + 1, acc + k)
+            IF k = 0 \/ acc + k > SYM_BITS THEN acc ELSE LeadScan(i + 1, n - 1, acc + k)
+\* entenc.h: the exact bits must have been coded BEFORE the patch call; pt[i] = <<v, n, coding ops before it>>
+PatchesWFAt(h, pt) == \A i \in 1..Len(pt) : pt[i][2] <= LeadScan(h + 1, pt[i][3], 0)
 RECURSIVE PatchBitsOf(_, _, _)
 PatchBitsOf(pt, i, pb) ==
   IF i > Len(pt) THEN pb
@@ -93,7 +95,7 @@ Quad(d) == <<D!Tell(d), D!TellFrac(d), D!RngHalves(d.rm)[1], D!RngHalves(d.rm)[2
 (***************************************************************************)
 BeginReasons(h, e) ==
   LET pb == PatchBitsOf(e.pt, 1, NoPatch)
-      wf == MaxPatched(pb) <= LeadScan(h + 1, 0)
+      wf == PatchesWFAt(h, e.pt)
       prem == e.err = 0 /\ wf /\ e.garb = 0
       d0 == D!Init(e.b, e.n1) IN
   (IF prem /\ e.et # e.dt THEN {"tellEqual"} ELSE {})
@@ -110,9 +112,9 @@ BeginReasons(h, e) ==
 
 BeginState(h, e) ==
   LET pb == PatchBitsOf(e.pt, 1, NoPatch) IN
-  [h |-> h, skip |-> FALSE, prem |-> e.err = 0 /\ e.garb = 0 /\ MaxPatched(pb) <= LeadScan(h + 1, 0),
+  [h |-> h, skip |-> FALSE, prem |-> e.err = 0 /\ e.garb = 0 /\ PatchesWFAt(h, e.pt),
    pb |-> pb, o |-> 0, pe |-> e.et, pd |-> e.dt,
-   d |-> IF NoRedecode THEN <<>> ELSE D!Init(e.b, e.n1), np |-> 0, ns |-> e.n0]
+   d |-> IF NoRedecode THEN <<>> ELSE D!Init(e.b, e.n1), np |-> 0, ns |-> e.n0, nc |-> 0]
 
 (***************************************************************************)
 (* op                                                                      *)
@@ -155,13 +157,16 @@ CodingState(s, e) ==
   LET op == EvOp(e)
       k == ExactBits(op)
       lead == s.o >= 0 /\ k > 0 /\ s.o + k <= SYM_BITS IN
-  [s EXCEPT !.o = IF lead THEN s.o + k ELSE -1, !.pe = e.e, !.pd = e.d,
+  [s EXCEPT !.o = IF lead THEN s.o + k ELSE -1, !.pe = e.e, !.pd = e.d, !.nc = @ + 1,
             !.d = IF NoRedecode THEN <<>> ELSE Redecode(s, e)[1]]
 
 \* patch / shrink: encoder-only calls; the counters must not move (the decoder's do not)
 OtherReasons(s, e) ==
   (IF e.e # s.pe THEN {"tellEqual"} ELSE {})
-  \cup (IF e.o = "patch" /\ (s.np + 1 > Len(Tr[s.h].pt) \/ Tr[s.h].pt[s.np + 1] # <<e.a[1], e.a[2]>>) THEN {"illegal"} ELSE {})
+  \cup (IF e.o = "patch" /\ (s.np + 1 > Len(Tr[s.h].pt) \/ Tr[s.h].pt[s.np + 1] # <<e.a[1], e.a[2], s.nc>>) THEN {"illegal"} ELSE {})
+  \* "the encoder can verify the number of encoded bits is sufficient": fewer than n bits coded so far
+  \* (tell-1 < n; tell rounds up) and no error yet => the patch must be refused (error flag set)
+  \cup (IF e.o = "patch" /\ e.pe[1] = 0 /\ s.pe[1] - 1 < e.a[2] /\ e.pe[2] = 0 THEN {"patchRefused"} ELSE {})
   \cup (IF e.o = "shrink" /\ e.a[1] > s.ns THEN {"illegal"} ELSE {})
 OtherState(s, e) ==
   IF e.o = "patch" THEN [s EXCEPT !.np = @ + 1] ELSE [s EXCEPT !.ns = e.a[1]]
